@@ -31,9 +31,9 @@ CHECK_DEADLOCK FALSE
 """
 TIERS = {
     "quick": dict(names='"a"', workers="1, 2", maxclock=1, dirs=["small"], protos=["G", "H"], stride=1, crash_stride=23,
-                  race_files=["cut0", "cut1"], race_protos=["G"]),
+                  race_files=["cut0", "cut1", "late"], race_protos=["G"]),
     "thorough": dict(names='"a", "b"', workers="1, 2", maxclock=1, dirs=["small", "both", "filler", "filler-dir"], protos=["G", "GP", "H"], stride=1, crash_stride=1,
-                     race_files=["none", "full", "cut0", "cut1", "zero"], race_protos=["G", "GP"]),
+                     race_files=["none", "full", "late", "cut0", "cut1", "zero"], race_protos=["G", "GP"]),
 }
 DIR_HANDLERS = "[url.HTMLURLHandler, dir.DirHandler, file.FileHandler]"
 DIRS = {
@@ -271,7 +271,7 @@ def main(chk, replay=None):
     rtraces = []
     if races:
         from harness import race
-        rtraces = cachelib.pool_map(race.run, races, None)
+        rtraces = race.run_all(races)
         rtv = tlc.validate_traces("TraceC14", "TraceC14.cfg",
                                   [{"id": tr["id"], "events": [{k: v for k, v in e.items() if k != "raw"} for e in tr["events"]]}
                                    for tr in rtraces])
